@@ -98,7 +98,25 @@ fn ranges_str(v: &[(usize, usize)]) -> String {
 }
 
 fn main() {
-    main_loop(|f| match f[0] {
+    // The real expansion forks (command substitution, pipelines inside it). A forked child normally execs or exits,
+    // but when the CHILD panics (e.g. `$(a | > f)`: is_builtin indexes an empty token list in the child) the unwinding
+    // would reach main_loop's catch_unwind inside the child, which would then go on processing the rest of the case
+    // file and write duplicate result lines. A process that is not the original harness must never return from here.
+    let pid0 = std::process::id();
+    main_loop(move |f| {
+        let r = catch_unwind(AssertUnwindSafe(|| op(f)));
+        if std::process::id() != pid0 {
+            unsafe { libc::_exit(101) }
+        }
+        match r {
+            Ok(s) => s,
+            Err(e) => std::panic::resume_unwind(e),
+        }
+    });
+}
+
+fn op(f: &[&str]) -> String {
+    match f[0] {
         "line" => {
             let line = dec(f[1]);
             let segs = parser_line::line_to_cmds(&line);
@@ -170,5 +188,5 @@ fn main() {
             format!("arith={}", if arith { 1 } else { 0 })
         }
         _ => "?bad-case".to_string(),
-    });
+    }
 }
